@@ -203,8 +203,9 @@ def evaluate(text):
     }
     if msg is not None:
         kind = msg.split(":", 1)[0].split("(")[0].lstrip("[")
-        res["fail"] = ("position:" + kind, msg)
-        res["outcome"] = "bad-position:" + kind
+        what = "range" if "outside" in msg else ("order" if "block token at line" in msg else "opening-text")
+        res["fail"] = (f"position:{kind}:{what}", msg)
+        res["outcome"] = f"bad-position:{kind}:{what}"
     else:
         res["outcome"] = "ok:" + ",".join(sorted(names))
     return res
@@ -227,5 +228,5 @@ def classify(key, sig, detail):
         what = "block tokens not in non-decreasing line order"
     else:
         what = "source text at the position is not the element's opening text"
-    kind = sig.split(":", 1)[1]
+    kind = sig.split(":")[1]
     return f"{kind}-{what}", f"position of a {kind} token is wrong: {what}"
